@@ -26,6 +26,19 @@ fn leaf_coord(d: &tr::Dag, id: u32) -> Option<u32> {
 /// `order`: removal order observed on the same point (f64 run, O3 log), when it is unambiguous.
 pub fn events_of(d: &tr::Dag, obs: Option<&Obs<Tr>>, outcome: &Outcome, log: &[(String, Value)], lattice: &[Option<(i64, i64)>], order: Option<&[usize]>, allowed: &[f64]) -> Vec<Value> {
     let leafsets = d.leaf_sets();
+    // coordinates with a DATA path into a returned quantity (when the call returned Ok)
+    let data_coords: Option<tr::Leaves> = obs.map(|o| {
+        let mut acc = tr::Leaves::default();
+        let mut add = |t: &Tr| { acc = acc.union(leafsets[t.id as usize]); };
+        add(&o.u); add(&o.v); add(&o.jacobian); add(&o.u_trop); add(&o.v_trop);
+        for k in &o.loop_momenta { for t in k { add(t); } }
+        if let Some(m) = &o.meta {
+            for r in m.l_matrix.iter().chain(m.q_vectors.iter()).chain(m.u_vectors.iter()).chain(m.shift.iter()).chain(m.inverse.iter()) { for t in r { add(t); } }
+            add(&m.lambda); add(&m.det);
+        }
+        acc
+    });
+    let is_data = |c: u32| -> bool { data_coords.map(|l| l.x >> c.min(127) & 1 == 1).unwrap_or(false) };
     // merged timeline: (position, order-within, item)
     enum It<'a> { Node(u32), Ev(&'a Event) }
     let mut tl: Vec<(u32, u8, It)> = vec![];
@@ -39,6 +52,8 @@ pub fn events_of(d: &tr::Dag, obs: Option<&Obs<Tr>>, outcome: &Outcome, log: &[(
         tl.push((at, 0, It::Ev(e)));
     }
     tl.sort_by_key(|x| (x.0, x.1));
+    // coordinates some comparison is about
+    let ctl_candidates: std::collections::BTreeSet<u32> = d.events.iter().filter_map(|e| match e { Event::Cmp { a, b, .. } => cmp_coord(d, &leafsets, *a, *b), _ => None }).collect();
     let mut first_use: std::collections::BTreeSet<u32> = Default::default();
     let mut evs: Vec<Value> = vec![];
     let mut nctl = 0usize;
@@ -46,7 +61,7 @@ pub fn events_of(d: &tr::Dag, obs: Option<&Obs<Tr>>, outcome: &Outcome, log: &[(
     while i < tl.len() {
         match &tl[i].2 {
             It::Ev(Event::Cmp { a, b, .. }) => {
-                let c = cmp_coord(d, &leafsets, *a, *b);
+                let c = cmp_coord(d, &leafsets, *a, *b).filter(|c| !is_data(*c));
                 if let Some(c) = c {
                     // group the consecutive comparisons against this coordinate
                     let mut n = 1;
@@ -70,7 +85,7 @@ pub fn events_of(d: &tr::Dag, obs: Option<&Obs<Tr>>, outcome: &Outcome, log: &[(
                     // skip the grouped comparisons but still process nodes in between for first uses
                     let mut k = i + 1;
                     while k < j {
-                        if let It::Node(id) = &tl[k].2 { node_use(d, *id, &mut first_use, &mut evs); }
+                        if let It::Node(id) = &tl[k].2 { node_use_f(d, *id, &mut first_use, &mut evs, &|c| obs.is_some() && !is_data(c) && ctl_candidates.contains(&c)); }
                         k += 1;
                     }
                     i = j;
@@ -91,7 +106,7 @@ pub fn events_of(d: &tr::Dag, obs: Option<&Obs<Tr>>, outcome: &Outcome, log: &[(
                 }
             }
             It::Ev(Event::Widen { .. }) => {}
-            It::Node(id) => node_use(d, *id, &mut first_use, &mut evs),
+            It::Node(id) => node_use_f(d, *id, &mut first_use, &mut evs, &|c| obs.is_some() && !is_data(c) && ctl_candidates.contains(&c)),
         }
         i += 1;
     }
@@ -172,14 +187,18 @@ pub fn events_of(d: &tr::Dag, obs: Option<&Obs<Tr>>, outcome: &Outcome, log: &[(
 /// dependency is one coordinate not used before in any other role
 fn cmp_coord(d: &tr::Dag, ls: &[tr::Leaves], a: u32, b: u32) -> Option<u32> {
     if let Some(c) = leaf_coord(d, b).or_else(|| leaf_coord(d, a)) { return Some(c); }
-    None.or_else(|| { let _ = ls; None })
+    // e.g. `u - running_sum <= 0`: the comparison is about coordinate c when c is the only coordinate its operands depend on
+    let l = ls[a as usize].union(ls[b as usize]);
+    if l.other == 0 && l.x.count_ones() == 1 { return Some(l.x.trailing_zeros()); }
+    None
 }
 
-fn node_use(d: &tr::Dag, id: u32, first_use: &mut std::collections::BTreeSet<u32>, evs: &mut Vec<Value>) {
+fn node_use_f(d: &tr::Dag, id: u32, first_use: &mut std::collections::BTreeSet<u32>, evs: &mut Vec<Value>, defer: &dyn Fn(u32) -> bool) {
     let n = &d.nodes[id as usize];
     for (pos, arg) in [(0, n.a), (1, n.b)] {
         if arg == tr::NOARG { continue; }
         if let Some(c) = leaf_coord(d, arg) {
+            if defer(c) { continue; }   // only feeds comparisons: the comparison will report it as a control read
             if first_use.insert(c) {
                 let _ = pos;
                 let op = format!("{:?}", n.op).to_lowercase();
